@@ -479,15 +479,6 @@ Proof.
   unfold good in *. rewrite (shape_is_sem T en w e body st Hsh). exact G.
 Qed.
 
-Ltac spec_solve :=
-  unfold obs_spec, user_converted, eff_status in *; simpl in *;
-  repeat split; intros;
-  repeat match goal with
-         | H : _ /\ _ |- _ => destruct H
-         | H : _ \/ _ |- _ => destruct H
-         end;
-  subst; try discriminate; try congruence; try contradiction; auto.
-
 Lemma good_call_converted : forall T (G : bool -> ctx -> Prop) ur dyn (bf : bool -> M) st,
   tables_ok T = true ->
   (forall u st', G u (top_of (stk st')) -> good obs_spec (bf u) st') ->
@@ -662,8 +653,3 @@ Proof.
   intros T Hok t st. destruct (exec_good_any T Hok t st) as [n [A [_ [_ [_ [R _]]]]]].
   exists n; split; assumption.
 Qed.
-
-(* the observations of one activation all see one and the same object: consequence of balance,
-   stated on run_body for a direct reading *)
-Theorem gen_free_of_shapes : forall T, tables_ok T = true -> balance_tables_ok T = true.
-Proof. exact tables_ok_balance. Qed.
